@@ -641,6 +641,12 @@ func ChoiceHeavy(r *rand.Rand) *Grammar {
 					a := ch()
 					first = &Expr{K: KClass, Items: []Item{{a, clampHi(a, a+1+rune(r.Intn(3)))}}}
 				}
+				if r.Intn(6) == 0 {
+					// an inverted range (it matches nothing) as the head of the first branch: the case keys come from
+					// the other branches alone
+					a := ch()
+					first = &Expr{K: KClass, Items: []Item{{clampHi(a, a+2), a}}}
+				}
 				inner := Alt(Seq(first, term()), Seq(term(), Un(KQuery, term())))
 				if r.Intn(3) == 0 {
 					inner.Kids = append(inner.Kids, term())
@@ -704,6 +710,9 @@ func ChoiceHeavy(r *rand.Rand) *Grammar {
 					// an inner choice whose first branch starts with a small range and whose second branch starts elsewhere
 					c2 := next()
 					rg := &Expr{K: KClass, Items: []Item{{c1, clampHi(c1, c1+1)}}}
+					if r.Intn(3) == 0 {
+						rg = &Expr{K: KClass, Items: []Item{{clampHi(c1, c1+2), c1}}} // inverted: matches nothing, the case has the single key c2
+					}
 					first = Alt(Seq(rg, term()), Seq(&Expr{K: KLit, Text: []rune{c2}}, term()))
 					if r.Intn(2) == 0 {
 						first = Un(KCapture, first)
